@@ -19,7 +19,11 @@ def writer_class(name):
 
 
 def make_writer(name, opts=None):
-    return writer_class(name)(**(opts or {}))
+    opts = dict(opts or {})
+    if isinstance(opts.get('default_positioning'), dict):
+        from vf import dump
+        opts['default_positioning'] = dump.mk_layout(opts['default_positioning'])
+    return writer_class(name)(**opts)
 
 
 _DFXP_STAMP = re.compile(r'^(\d{2,}):(\d{2}):(\d{2})\.(\d{3})$')
